@@ -146,6 +146,24 @@ def execute(item, only=None):
                     rep("aggregate_power", "aggregate_power[%d] = %r kW, sum of rate x station voltage = %r kW" % (t, float(ap[t]), wp), float(ap[t]), wp)
                     break
 
+        # a caller converts its result in place (kW -> W): what the library returns next must not have moved
+        try:
+            ac *= 1000.0
+            ap *= 1000.0
+        except (TypeError, ValueError):
+            pass
+        ac2, ap2 = acnsim.aggregate_current(sim), acnsim.aggregate_power(sim)
+        info["queries"] += 2
+        if len(ac2) == T and len(ap2) == T:
+            for t in range(T):
+                wc = sum(row[s][t] for s in row)
+                wp = sum(row[s][t] * volt[s] for s in row) / 1000.0
+                if not close(float(ac2[t]), wc) or not close(float(ap2[t]), wp):
+                    rep("aggregate:second-call-after-caller-scaled-its-result", "second call: aggregate_current[%d]=%r (sum %r), aggregate_power[%d]=%r (weighted sum %r)" % (t, float(ac2[t]), wc, t, float(ap2[t]), wp), [float(ac2[t]), float(ap2[t])], [wc, wp])
+                    break
+        else:
+            rep("aggregate:length", "second call: aggregate series have lengths %d/%d" % (len(ac2), len(ap2)), None, T)
+
         # ---- constraint currents for every ordered subset ---------------------
         def ref_cur(name, t):
             coefs = cons[name][0]
